@@ -61,7 +61,7 @@ def cases(ctx):
             yield Case(f'msg_prefix {hx(b)}', 'g', nontrivial=nt, tag='gen-prefix')      # the generated (translated) add_magic_prefix
     triples = []
     small = [m for m in msgs if len(m) <= 300]
-    keys = [1, 2, N - 1] + [rng.randrange(1, N) for _ in range(ctx.n(10, 600))]
+    keys = [1, 2, N - 1] + [rng.randrange(1, N) for _ in range(ctx.n(10, 350))]
     keys = keys + [rng.choice(keys) for _ in range(ctx.n(8, 300))]      # keys that sign several messages / networks / compressions
     for d in keys:
         net = rng.choice(NETS); c = rng.random() < 0.5
@@ -86,7 +86,7 @@ def cases(ctx):
                    spec=lambda ans, d=d: (f'secp_mul {hx(d.to_bytes(32, "big"))}', ans))
         triples.append((net, d, c, m, addr))
     # verification of valid and forged triples
-    for net, d, c, m, addr in triples[:ctx.n(8, 800)]:
+    for net, d, c, m, addr in triples[:ctx.n(8, 400)]:
         setup(net)
         k = PrivateKey(secret_exponent=d)
         sig = base64.b64decode(k.sign_message(m, compressed=c))
